@@ -626,3 +626,117 @@ func E6PSGrammar(c *core.Ctx, r *core.Report) {
 	})
 	r.Floor("E6.ps-procs", 1)
 }
+
+// E6ScannerSites: all scanner emissions of ToScanxScanner have the same coordinate mapping; image sizes agree.
+func E6ScannerSites(c *core.Ctx, r *core.Report) {
+	r.Rule("E6.scanner-site", "every ras.Start/ras.Line call in Path.ToScanxScanner passes fixedPoint26_6(X*dpmm, dy-Y*dpmm) with X, Y consecutive data values of one record (sibling agreement: a deviating site flips or shifts part of the outline); the rendering is called with the image height in pixels")
+	r.Rule("E6.image-size", "rasterizer.Draw and rasterizer.New compute the image size as int(W*DPMM+0.5) x int(H*DPMM+0.5) (sibling agreement)")
+	p := c.MustPkg("")
+	info := p.TypesInfo
+	fd := core.MustFuncDecl(p, "Path.ToScanxScanner")
+	r.Func("canvas.Path.ToScanxScanner")
+	dyObj := paramObj(info, fd, 1)
+	n := 0
+	ast.Inspect(fd.Body, func(nd ast.Node) bool {
+		call, ok := nd.(*ast.CallExpr)
+		if !ok || len(call.Args) != 1 {
+			return true
+		}
+		se, ok := call.Fun.(*ast.SelectorExpr)
+		if !ok || (se.Sel.Name != "Start" && se.Sel.Name != "Line") {
+			return true
+		}
+		inner, ok := core.Unparen(call.Args[0]).(*ast.CallExpr)
+		if !ok || len(inner.Args) != 2 {
+			return true
+		}
+		if f := core.CalleeOf(info, inner); f == nil || f.Name() != "fixedPoint26_6" {
+			return true
+		}
+		n++
+		key := fmt.Sprintf("canvas.Path.ToScanxScanner|%s site #%d", se.Sel.Name, n)
+		// X*dpmm
+		okX, okY := false, false
+		var xi, yi *ast.IndexExpr
+		if mul, ok := core.Unparen(inner.Args[0]).(*ast.BinaryExpr); ok && mul.Op == token.MUL {
+			if ie, ok := core.Unparen(mul.X).(*ast.IndexExpr); ok && core.IsPathDataSel(info, ie.X) {
+				if id, ok := core.Unparen(mul.Y).(*ast.Ident); ok && id.Name == "dpmm" {
+					okX, xi = true, ie
+				}
+			}
+		}
+		// dy - Y*dpmm
+		if sub, ok := core.Unparen(inner.Args[1]).(*ast.BinaryExpr); ok && sub.Op == token.SUB {
+			if id, ok := core.Unparen(sub.X).(*ast.Ident); ok && core.ObjOf(info, id) == dyObj {
+				if mul, ok := core.Unparen(sub.Y).(*ast.BinaryExpr); ok && mul.Op == token.MUL {
+					if ie, ok := core.Unparen(mul.X).(*ast.IndexExpr); ok && core.IsPathDataSel(info, ie.X) {
+						if id2, ok := core.Unparen(mul.Y).(*ast.Ident); ok && id2.Name == "dpmm" {
+							okY, yi = true, ie
+						}
+					}
+				}
+			}
+		}
+		consecutive := false
+		if okX && okY {
+			if d, ok := indexDistance(info, yi.Index, xi.Index); ok && d == 1 && types.ExprString(xi.X) == types.ExprString(yi.X) {
+				consecutive = true
+			}
+		}
+		if okX && okY && consecutive {
+			r.OK("E6.scanner-site", key, c.Pos(call.Pos()), types.ExprString(inner))
+		} else {
+			r.Fail("E6.scanner-site", key, c.Pos(call.Pos()), fmt.Sprintf("`%s` deviates from the sibling sites' shape fixedPoint26_6(d[k]*dpmm, dy-d[k+1]*dpmm): part of the outline is not y-flipped/scaled like the rest", types.ExprString(inner)))
+		}
+		return true
+	})
+	r.Count("E6.scanner-sites", n)
+	r.Floor("E6.scanner-sites", 4)
+	// callers pass the image height
+	rp := c.MustPkg("renderers/rasterizer")
+	rfd := core.MustFuncDecl(rp, "Rasterizer.RenderPath")
+	calls, good := 0, 0
+	ast.Inspect(rfd.Body, func(nd ast.Node) bool {
+		call, ok := nd.(*ast.CallExpr)
+		if !ok || len(call.Args) != 3 {
+			return true
+		}
+		if f := core.CalleeOf(rp.TypesInfo, call); f == nil || f.Name() != "ToScanxScanner" {
+			return true
+		}
+		calls++
+		if types.ExprString(call.Args[1]) == "float64(size.Y)" && types.ExprString(call.Args[2]) == "r.resolution" {
+			good++
+		}
+		return true
+	})
+	if calls > 0 && calls == good {
+		r.OK("E6.scanner-site", "renderers/rasterizer.Rasterizer.RenderPath|ToScanxScanner arguments", c.Pos(rfd.Pos()), fmt.Sprintf("%d calls pass float64(size.Y), r.resolution", calls))
+	} else {
+		r.Fail("E6.scanner-site", "renderers/rasterizer.Rasterizer.RenderPath|ToScanxScanner arguments", c.Pos(rfd.Pos()), fmt.Sprintf("%d of %d ToScanxScanner calls pass the image height and the renderer's resolution", good, calls))
+	}
+	// image sizes
+	var shapes []string
+	for _, fn := range []string{"Draw", "New"} {
+		f := core.MustFuncDecl(rp, fn)
+		ast.Inspect(f.Body, func(nd ast.Node) bool {
+			call, ok := nd.(*ast.CallExpr)
+			if !ok || len(call.Args) != 4 {
+				return true
+			}
+			if cf := core.CalleeOf(rp.TypesInfo, call); cf == nil || cf.Name() != "Rect" {
+				return true
+			}
+			s := types.ExprString(call.Args[2]) + " x " + types.ExprString(call.Args[3])
+			s = strings.NewReplacer("c.W", "W", "c.H", "H", "width", "W", "height", "H").Replace(s)
+			shapes = append(shapes, s)
+			return true
+		})
+	}
+	want := "int(W*resolution.DPMM() + 0.5) x int(H*resolution.DPMM() + 0.5)"
+	if len(shapes) == 2 && shapes[0] == shapes[1] && shapes[0] == want {
+		r.OK("E6.image-size", "renderers/rasterizer|Draw~New", c.Pos(rfd.Pos()), shapes[0])
+	} else {
+		r.Fail("E6.image-size", "renderers/rasterizer|Draw~New", c.Pos(rfd.Pos()), fmt.Sprintf("image size expressions differ or are not width x height x resolution: %v", shapes))
+	}
+}
